@@ -53,8 +53,9 @@ THEOREMS = [
     "Measured.matchFactors_refactor", "Measured.reach2_graphOK",
     "Measured.convert_simple_near", "Measured.Obligations.NearShipped.shipped_simple_conversions_near",
     "Measured.Obligations.NearShipped.shipped_simple_inhabited",
+    "Measured.C05.flat_conversion_closed_form", "Measured.C04.simple_conversion_near", "Measured.C04.direct_conversion_near",
 ]
-LEAN_TARGETS = ["Props.C05", "Proofs.MatchRefactor", "Proofs.ReachSimple", "Obligations.C05", "Obligations.C05Direct", "Obligations.C05Near"]
+LEAN_TARGETS = ["Props.C05", "Proofs.MatchRefactor", "Proofs.ReachSimple", "Obligations.C05", "Obligations.C05Direct", "Obligations.C05Near", "Props.Planner"]
 QUICK = {"chunks": 4, "ops": 1500}
 THOROUGH = {"chunks": 16, "ops": 9000}
 RTOL = 1e-11
